@@ -10,7 +10,7 @@ class Gen:
         self.size = size
         f = dict(phony=0.15, deps=0.5, restat=0.2, generator=0.05, pools=0.3, rsp=0.12, vals=0.2, multi=0.25,
                  subdirs=0.5, dyndep=0.0, console=0.05, order_only=0.4, implicit=0.4, no_manifest_path=0.0,
-                 phony_file=0.0, msvc=0.2, depfile_only=0.25)
+                 phony_file=0.0, msvc=0.2, depfile_only=0.25, chain=1.0)
         f.update(feat or {})
         self.f = f
 
@@ -42,7 +42,10 @@ class Gen:
                 if hdrs and r.random() < 0.4:
                     ins.append(r.choice(hdrs))      # header groups: sources behind an alias
                 st = St(sid_, ["al%d" % i], ins=ins, kind="phony")
-                if r.random() < 0.2 and len(avail) > k:
+                if r.random() < 0.3:
+                    # a pure ordering group: "build group: phony || a b"
+                    st["oins"], st["ins"] = [x for x in ins if x in avail], []
+                elif r.random() < 0.2 and len(avail) > k:
                     st["oins"] = [r.choice([a for a in avail if a not in ins])]
                 sc["stmts"].append(st)
                 avail.append("al%d" % i)
@@ -80,6 +83,8 @@ class Gen:
             sc["sources"][src] = content
             # more inputs from what is available
             cand = [a for a in avail if a not in st["oins"] and a not in st["iins"]]
+            if not self.p("chain"):
+                cand = []
             r.shuffle(cand)
             n_ex = r.randint(0, min(2, len(cand)))
             st["ins"] += cand[:n_ex]
